@@ -239,7 +239,7 @@ namespace trompeloeil {
     location loc)
   const
   {
-    if (is_first(matcher)) return;
+    if (cost(matcher) != ~0U) return;
     if (matchers.empty())
     {
       std::ostringstream os;
@@ -249,6 +249,7 @@ namespace trompeloeil {
          << ". Sequence \"" << seq_name
          << "\" has no more pending expectations\n";
       send_report<specialized>(s, loc, os.str());
+      return;
     }
     bool first = true;
     std::ostringstream os;
